@@ -10,6 +10,14 @@ def pairs : List Nat → List (Nat × Nat)
   | a :: b :: r => (a, b) :: pairs r
   | _ => []
 
+def genPieces : Aegean.Model.C20.Pieces :=
+  { guard := Gen.C20.guard, rowMin := Gen.C20.rowMin, rowMax := Gen.C20.rowMax,
+    hdrNaxis2P := Gen.C20.hdrNaxis2P, hdrCrpix2P := Gen.C20.hdrCrpix2P,
+    hdrNaxis2C := Gen.C20.hdrNaxis2C, hdrCrpix2C := Gen.C20.hdrCrpix2C,
+    secN := Gen.C20.secN, secL0 := Gen.C20.secL0, secL1 := Gen.C20.secL1, secRlo := Gen.C20.secRlo,
+    secRhi := Gen.C20.secRhi, secClo := Gen.C20.secClo, secChi := Gen.C20.secChi,
+    cmpRlo := Gen.C20.cmpRlo, cmpRhi := Gen.C20.cmpRhi, cmpClo := Gen.C20.cmpClo, cmpChi := Gen.C20.cmpChi }
+
 def handle (ws : List String) : String :=
   match ws with
   | ["bounds", rows, n, i] =>
@@ -25,6 +33,20 @@ def handle (ws : List String) : String :=
       | .error .negative => "err negative"
       | .ok b => s!"ok {b.naxis2} {b.crpix2Shift} {showNats b.data}"
     | _, _, _ => "bad-op"
+  | ["full", comp, naxis, n4, n3, rows, cols, crpix2, cube, i, n] =>
+    -- the whole function assembled from the regenerated pieces, on an index-valued image
+    match comp.toNat?, naxis.toNat?, n4.toNat?, n3.toNat?, rows.toNat?, cols.toNat?, crpix2.toInt?, cube.toNat?, i.toInt?, n.toInt? with
+    | some comp, some naxis, some n4, some n3, some rows, some cols, some crpix2, some cube, some i, some n =>
+      let data := (List.range n4).map fun a => (List.range n3).map fun b => (List.range rows).map fun r =>
+        (List.range cols).map fun c => ((a * n3 + b) * rows + r) * cols + c
+      let img : Aegean.Model.C20.Img Nat := { naxis := naxis, naxis1 := cols, naxis2 := rows, crpix2 := crpix2, data := data }
+      match Aegean.Model.C20.loadFull genPieces img (comp != 0) cube i n with
+      | .error (.guard k) => s!"err guard {k}"
+      | .error .tooManyAxes => "err tooManyAxes"
+      | .error .index => "err index"
+      | .error .shape => "err shape"
+      | .ok b => s!"ok {b.naxis2} {b.crpix2} {";".intercalate (b.data.map showNats)}"
+    | _, _, _, _, _, _, _, _, _, _ => "bad-op"
   | "spec" :: rows :: rest =>
     match rows.toNat?, rest.mapM String.toNat? with
     | some rows, some l =>
